@@ -15,3 +15,11 @@ E1NOTE = "trusted: Go runtime, tm-db MemDB, the 150-line reference map in intern
 claim("C01", "E1-kvmodel", "exploration", "differential runtime monitor vs reference overlay map over generated op histories (incl. mutation spy on Write)",
       "thousands of generated get/has/set/delete/iterate/open-iterator-then-write/push/write/discard histories over 5 parent kinds, every result compared with a stack-of-overlays reference map; held-on-observed, not a proof",
       E1NOTE, "DESIGN.md §4 C01")
+
+claim("C02", "E1-kvmodel", "exploration", "differential runtime monitor vs filter+strip reference map, whole-parent diff after every write (isolation)",
+      "thousands of generated histories over prefix views (empty, all-0xFF, trailing-0xFF, nested) on MemDB/IAVL/cachekv parents with sibling keys planted around the prefix; every read and full parent content compared with the model; held-on-observed",
+      E1NOTE, "DESIGN.md §4 C02")
+claim("C03", "E1-kvmodel", "exploration", "differential runtime monitor vs per-version reference map + structural invariant hook (H1) walked at quiescent points",
+      "thousands of generated set/remove/save/delete-version histories on the real IAVL tree (key universes 1..3000, node cache 0..10000); every lookup API on the working tree and on every retained version compared with a per-version map, AVL/BST/size/height invariants asserted by hook H1 after every operation; held-on-observed",
+      E1NOTE + "; hook H1 store/iavl/verif_hooks.go", "DESIGN.md §4 C03")
+HOOK_COMMITS.append("96b9fde verif hook H1: iavl ImmutableTree.VerifStructure")
